@@ -30,6 +30,9 @@ KIND = {
     # same name, same NUMBER of fields as A, one of them new
     "A~": lambda i: rs("sq/a", [["string", "s"], ["string", "owner"]], ["'t%d'" % i, "'o%d'" % i]),
 }
+# two types of one name, the same number of fields and coinciding (name, hash) identifiers, other columns
+KIND["K1"] = lambda i: rs("sq/k", [["string", "a"], ["string", "bvarintc"]], ["'k%d'" % i, "'l%d'" % i])
+KIND["K2"] = lambda i: rs("sq/k", [["varint", "astringb"], ["string", "c"]], [str(i), "'c%d'" % i])
 EVENTS = ["A", "B", "A+", "A-", "A~", "flush", "close"]
 # "bad": an A record whose integer does not fit SQLite's 64 bits: write() raises, the caller carries on
 BAD = lambda i: rs("sq/a", [["string", "s"], ["varint", "n"]], ["'bad%d'" % i, "2**63"])  # noqa: E731
@@ -352,6 +355,7 @@ def run_value(case):
 
 
 NAMES = ["sqlite/history", "SQLiteDump", "sqlitex", "sqlite_x", "plain", "select", "table", "order", "index", "group", "MixedCase", "a_1", "x" * 63, "y" * 64, "a/b/c", "where/from", "Select", "values"]
+KEYWORD_FIELDS = ["from", "class", "in", "None"]  # Python keywords as field names: the record class is generated from another template
 
 
 def run_names(case):
@@ -366,12 +370,13 @@ def run_names(case):
     try:
         r1 = recs.build_record(rs(tname, [["string", fname], ["varint", "n"]], ["'v1'", "1"]))
         r2 = recs.build_record(rs(tname, [["string", fname], ["varint", "n"]], ["'v2'", "2"]))
+        r3 = recs.build_record(rs(tname, [["string", fname], ["varint", "n"]], ["''", "0"]))  # set, but falsy
         extra = []
         if case.get("second"):
             extra = [recs.build_record(rs(case["second"][0], [["string", case["second"][1]], ["varint", "n"]], ["'w'", "3"]))]
         try:
             w = RecordWriter("sqlite://" + path)
-            for r in [r1, r2] + extra:
+            for r in [r1, r2, r3] + extra:
                 w.write(r)
             w.flush()
             w.close()
@@ -385,18 +390,18 @@ def run_names(case):
             viol.append(("C18:names:tables:%s" % ("case-collision" if case.get("second") else "single"), case, {"tables": sorted(seen), "want": sorted(want_tables)}))
         else:
             cols, rows = seen[tname]
-            if fname not in cols or len(rows) != 2 or dict(zip(cols, rows[0])).get(fname) != "v1":
+            if fname not in cols or len(rows) != 3 or dict(zip(cols, rows[0])).get(fname) != "v1" or dict(zip(cols, rows[2])).get(fname) != "":
                 viol.append(("C18:names:rows", case, {"cols": cols, "rows": len(rows)}))
         try:
             rd = RecordReader("sqlite://" + path)
             got, exc = drain(rd)
         except Exception as e:  # noqa: BLE001
             got, exc = [], e
-        if exc is not None or len(got) != 2 + len(extra):
+        if exc is not None or len(got) != 3 + len(extra):
             viol.append(("C18:names:reader:%s" % (type(exc).__name__ if exc else "count"), case, {"error": repr(exc)[:200], "count": len(got)}))
         else:
-            vals = sorted(str(getattr(g, fname, getattr(g, case["second"][1] if case.get("second") else fname, None))) for g in got)
-            if vals != sorted(["v1", "v2"] + (["w"] if extra else [])):
+            vals = sorted(repr(getattr(g, fname, getattr(g, case["second"][1] if case.get("second") else fname, None))) + "/" + repr(g.n) for g in got)
+            if vals != sorted(["'v1'/1", "'v2'/2", "''/0"] + (["'w'/3"] if extra else [])):
                 viol.append(("C18:names:reader-values", case, {"values": vals}))
     finally:
         for suffix in ("", "-journal"):
@@ -426,6 +431,10 @@ def cases(tier, seed):
         for hist in itertools.product(["A", "B", "A+", "flush"], repeat=k):
             for closer in ("exit", "exit-exc"):
                 yield {"kind": "hist", "hist": list(hist) + [closer]}
+    for k in range(2, 5):
+        for hist in itertools.product(["K1", "K2", "A", "flush", "close"], repeat=k):
+            if "close" not in hist[:-1] and "K1" in hist and "K2" in hist:
+                yield {"kind": "hist", "hist": list(hist)}
     for n in range(1, 9):
         yield {"kind": "hist", "hist": ["A"] * n}
         yield {"kind": "hist", "hist": ["A"] * n + ["close"]}
@@ -449,7 +458,7 @@ def cases(tier, seed):
             if "close" not in hist[:-1]:
                 yield {"kind": "hist", "hist": list(hist), "debug": True}
     for tn in NAMES:
-        for fn in NAMES:
+        for fn in NAMES + KEYWORD_FIELDS:
             if "/" in fn:
                 continue
             yield {"kind": "names", "type": tn, "field": fn}
